@@ -44,7 +44,7 @@ def main():
     wts = queue.Queue()
     made = []
     for k in range(nw):
-        wt = "/tmp/wt/ms-%s-%d" % (os.path.basename(src_json).replace(".json", ""), k)
+        wt = "/tmp/wt/ms-%s-%d" % (os.path.basename(src_json).replace(".json", "").replace(".", "_"), k)   # no dot: a test of test_memory.py is sensitive to dots in the path
         subprocess.run(["git", "-C", "/repo", "worktree", "remove", "--force", wt], capture_output=True)
         subprocess.check_call(["git", "-C", "/repo", "worktree", "add", "--detach", wt, "HEAD"], stdout=subprocess.DEVNULL, stderr=subprocess.DEVNULL)
         wts.put(wt); made.append(wt)
@@ -71,12 +71,12 @@ def main():
             p = os.path.join(wt, rel)
             open(p, "w", encoding="utf-8").write(new)
             t = TESTS.get(rel, "")
-            res = subprocess.run("cd %s && rm -rf .bt && timeout 900 /venv/bin/python -m pytest -x -q -p no:cacheprovider --timeout=300 --basetemp=.bt %s 2>&1 | grep -aE '[0-9]+ (passed|failed)|error' | tail -1" % (wt, t),
+            res = subprocess.run("cd %s && rm -rf .bt && timeout 900 /venv/bin/python -m pytest -x -q -p no:cacheprovider --timeout=300 --basetemp=.bt %s 2>&1 | grep -aE '[0-9]+ (passed|failed)|error|^FAILED|^ERROR' | tail -2 | tr '\n' ' '" % (wt, t),
                                  shell=True, capture_output=True, text=True)
             line = res.stdout.strip()
-            ok = "passed" in line and "failed" not in line and "error" not in line
+            ok = "passed" in line and "failed" not in line and "error" not in line and "FAILED" not in line and "ERROR" not in line
             with lock:
-                out.append((rel, q, kind, desc, status, "SURVIVES" if ok else "killed-by-tests", line[-80:]))
+                out.append((rel, q, kind, desc, status, "SURVIVES" if ok else "killed-by-tests", line[-300:]))
                 if ok:
                     print("SURVIVOR %-6s %s [%s] (%s)" % (kind, desc, q, status)); sys.stdout.flush()
         finally:
